@@ -362,7 +362,8 @@ def stream_helpers(ctx):
             n = max(p, q, r, s) + 1
             b.add('jordan_wigner_two_body', case, jQ,
                   {'op': 'c04.two_body', 'p': p, 'q': q, 'r': r, 's': s, 'c': to_gq(c)},
-                  oracle('fermion', n, ['two_body', p, q, r, s, to_gq(c)], jQ) if n <= 8 else None)
+                  oracle('fermion', n, ['two_body', p, q, r, s, to_gq(c)], jQ) if n <= 8 else None,
+                  regime_req={'op': 'c04.two_body_ok', 'p': p, 'q': q, 'r': r, 's': s, 'c': to_gq(c)})
         if len(b.items) > 4000:
             b.flush()
     b.flush()
